@@ -15,11 +15,17 @@ COMP_VALS = [[F(3), F(-4)], [F(1, 2), F(12)], [F(5), F(2)]]          # per compo
 RHS_VALS = [[F(2), F(8)], [F(-1), F(1, 4)], [F(4), F(3)]]
 
 
-def mkvec(n, unit, vals, k=0):
+def mkvec(n, unit, vals, k=0, late=False):
+    """late: the last component is assigned after construction (v.y = ... / v.z = ...), as the library's own tests do"""
     import numpy as np
     import osyris
     comps = [np.array([float(x) for x in vals[(c + k) % 3]]) for c in range(n)]
-    return osyris.Vector(*comps, unit=UNITSTR[unit]), [list(vals[(c + k) % 3]) for c in range(n)]
+    if late and n > 1:
+        v = osyris.Vector(*comps[:-1], unit=UNITSTR[unit])
+        setattr(v, "xyz"[n - 1], osyris.Array(comps[-1], unit=UNITSTR[unit]))
+    else:
+        v = osyris.Vector(*comps, unit=UNITSTR[unit])
+    return v, [list(vals[(c + k) % 3]) for c in range(n)]
 
 
 def comps_of(v):
@@ -45,7 +51,7 @@ def run_case(rec, k):
     V, A = osyris.Vector, osyris.Array
     if c["fam"] == "vbin":
         ru = names["r"]
-        v, vvals = mkvec(c["nl"], lu, COMP_VALS, k)
+        v, vvals = mkvec(c["nl"], lu, COMP_VALS, k, late=(c["lu"] + c["nl"] + (c.get("ru") or 0)) % 3 == 0)
         rk = c["rk"]
         if rk == "vec":
             w, wvals = mkvec(c["nr"], ru, RHS_VALS, k)
